@@ -75,6 +75,10 @@ func (l *LSTM) Apply(inputs []tensor.Tensor) ([]tensor.Tensor, error) {
 		return nil, ops.ErrUnsupportedInput("sequence_lens", l)
 	}
 
+	if len(l.activations) < 3 {
+		return nil, ops.ErrInvalidAttribute(ops.ActivationsAttr, l)
+	}
+
 	X := inputs[0]
 	seqLength := X.Shape()[0]
 	batchSize := X.Shape()[1]
